@@ -30,6 +30,9 @@ pub struct Bounds {
     pub fault: u32,
 }
 
+/// Number of executions that had to be re-run because they did not follow their prefix.
+pub static DIVERGENCE_RETRIES: std::sync::atomic::AtomicU64 = std::sync::atomic::AtomicU64::new(0);
+
 #[derive(Default, Debug, Clone)]
 pub struct Stats {
     pub executions: u64,
@@ -84,23 +87,34 @@ pub fn explore<R: Send>(
                         g = cv.wait(g).unwrap();
                     }
                 };
-                let (points, res) = run(&prefix);
-                if points.len() < prefix.len() {
-                    crate::machinery_failure(&format!(
-                        "scheduler divergence: execution has {} points but prefix {:?} was requested",
-                        points.len(),
-                        prefix
-                    ));
-                }
-                for (i, c) in prefix.iter().enumerate() {
-                    if points[i].chosen != *c || *c >= points[i].alts.len() {
-                        crate::machinery_failure(&format!(
-                            "scheduler divergence at point {i}: prefix {:?}, got chosen={} of {} alts",
-                            prefix,
-                            points[i].chosen,
-                            points[i].alts.len()
-                        ));
+                // A prefix must be reproducible. An execution that cannot follow it is re-run (the
+                // subject may consult the outside world, e.g. a `ps` liveness probe); a second
+                // divergence on the same prefix, or more than a handful in one exploration, is a
+                // hard machinery error. Retries are counted and reported (DIVERGENCE_RETRIES).
+                let follows = |points: &Vec<Point>| -> Result<(), String> {
+                    if points.len() < prefix.len() {
+                        return Err(format!("execution has {} points but prefix {:?} was requested", points.len(), prefix));
                     }
+                    for (i, c) in prefix.iter().enumerate() {
+                        if points[i].chosen != *c || *c >= points[i].alts.len() {
+                            return Err(format!("at point {i}: prefix {:?}, got chosen={} of {} alts", prefix, points[i].chosen, points[i].alts.len()));
+                        }
+                    }
+                    Ok(())
+                };
+                let (mut points, mut res) = run(&prefix);
+                if let Err(first) = follows(&points) {
+                    let n = DIVERGENCE_RETRIES.fetch_add(1, std::sync::atomic::Ordering::SeqCst);
+                    eprintln!("[explore] divergence ({first}); re-running the prefix once");
+                    if n >= 5 {
+                        crate::machinery_failure(&format!("scheduler divergence (6th in this exploration): {first}"));
+                    }
+                    let (p2, r2) = run(&prefix);
+                    if let Err(second) = follows(&p2) {
+                        crate::machinery_failure(&format!("scheduler divergence, twice on the same prefix: {first} / {second}"));
+                    }
+                    points = p2;
+                    res = r2;
                 }
                 let choices: Vec<usize> = points.iter().map(|p| p.chosen).collect();
                 // children
